@@ -288,3 +288,11 @@ Theorem C02_gen_dotdot_at_root : forall root p md vr,
   = gen_traverser_call root (mkReq (Some (slash :: p)) md vr).
 Proof. exact gen_dotdot_at_root. Qed.
 Print Assumptions C02_gen_dotdot_at_root.
+
+(* one long-lived traverser object: any history of requests on it answers like a fresh
+   traverser per request (tied to the source by the facts "__call__ never writes to self",
+   "__init__ is self.root = root", "the class has no further attributes") *)
+Theorem C02_obj_history_free : forall o qs,
+  obj_history o qs = (map (fun q => fst (obj_call (mkObj (o_root o)) q)) qs, o).
+Proof. exact obj_history_free. Qed.
+Print Assumptions C02_obj_history_free.
